@@ -4,7 +4,7 @@ thorough tiers differ only in constants / families."""
 
 
 def tlc(name, module, consts=None, invariants=(), properties=(), workers=4, timeout=900, **kw):
-    c = {"DEV_MissingDynAnchorFails": "FALSE"}
+    c = {"DEV_MissingDynAnchorFails": "FALSE"} if module in ("MC_Eval",) else {}
     c.update(consts or {})
     d = dict(name=name, module=module, consts=c, invariants=list(invariants), properties=list(properties),
              workers=workers, timeout=timeout, spec_formula="Spec")
@@ -57,7 +57,37 @@ def plan_C07(tier, seed):
     return eval_plan("c07", [("U1", 2), ("U2", 2)], [], workers=8, parallel=2)
 
 
-PLANS = {"C01": plan_C01, "C02": plan_C02, "C07": plan_C07}
+def plan_C06(tier, seed):
+    if tier == "quick":
+        return eval_plan("c06", [("DY", 1), ("DY", 2)], [], workers=6, parallel=2)
+    return eval_plan("c06", [("DY", 2), ("DY", 3)], [], workers=8, parallel=2)
+
+
+RES_INV = ["NoPanic", "AtMostOnce", "NeverLoadsKnown", "NoReentry", "RefinesResolve", "Emit"]
+
+
+def res_jobs(prefix, fams, workers=6):
+    return [tlc("%s_%s_k%d" % (prefix, f, k), "MC_Resolve",
+                {"Family": q(f), "K": k, "DEV_CacheHitNoInfoMerge": "FALSE", "MUT_CacheAfterRefs": "FALSE"},
+                RES_INV, ["Terminates"], workers=workers) for f, k in fams]
+
+
+def plan_C03(tier, seed):
+    fams = [("R1", 1), ("R2", 1)] if tier == "quick" else [("R1", 3), ("R2", 2)]
+    jobs = res_jobs("c03", fams, workers=6 if tier == "quick" else 8)
+    return dict(
+        tlc=jobs, parallel=2,
+        replay=[dict(name="c03_replay", family="eval", inputs=[j["name"] for j in jobs])],
+        rule="reference topologies enumerated by TLC (MC_Resolve families R1: embedded resources x $id forms x referrer "
+             "location x reference forms; R2: Loader documents in chains, diamonds, cycles, canonical aliases x all fault "
+             "subsets x all visiting orders); a case is one universe with the L0 prediction (Resolve ok/err, verdict vector "
+             "over uniquely marked targets, Loader call set); non-trivial = Resolve error predicted, or the vector "
+             "distinguishes targets; distinct by universe text",
+        exhaustive=True,
+        assumptions=["TLC", "net/url parsing of the generated URI texts", "harness Loader logs every call"])
+
+
+PLANS = {"C03": plan_C03, "C06": plan_C06, "C01": plan_C01, "C02": plan_C02, "C07": plan_C07}
 
 
 def plan(prop, tier, seed):
